@@ -35,6 +35,37 @@ def run(tier):
     return r.finish()
 
 
+def _typed_history():
+    "a few ordinary queries on typed streams whose lambda parameters are called ev / hit / value / ctx / j"
+    from dataclasses import dataclass
+    from typing import Iterable
+    from func_adl import EventDataset
+
+    class Hit:
+        def pt(self) -> float: ...  # noqa
+
+    @dataclass
+    class Rec:
+        weight: float
+        hits: Iterable[Hit]
+
+    class Ev:
+        def jets(self, name: str = "default") -> Iterable[Hit]: ...  # noqa
+        def met(self, calib: int = 7) -> float: ...  # noqa
+        def rec(self) -> Rec: ...  # noqa
+
+    class TDS(EventDataset[Ev]):
+        def __init__(self):
+            super().__init__(Ev)
+
+        async def execute_result_async(self, a, title=None):
+            return a
+    TDS().Select("lambda ev: ev.jets().Select(lambda hit: hit.pt())")
+    TDS().Where("lambda value: value.met() > 1").Select("lambda ctx: ctx.rec()").Select("lambda hit: hit.weight")
+    TDS().SelectMany("lambda j: j.jets()").Select("lambda value: value.pt()")
+    TDS().Select("lambda ev: ev.rec()").Select("lambda value: value.hits.Select(lambda j: j.pt())")
+
+
 def three_ways_side_check(r, tier):
     """lambdas supplied as source strings, ASTs and capture-free Python callables must give the same outcome.  The callable form needs a
     source file, so this part is a concrete differential run over seeded samples of the same grammar (generated module, real lambdas)."""
@@ -60,6 +91,23 @@ def three_ways_side_check(r, tier):
         if ch.bad or fl.none_const:
             continue
         cases.append((rnd.randrange(3), ast.unparse(ast.fix_missing_locations(ast.Lambda(ast.arguments([], [ast.arg("e")], None, [], [], None, []), body)))))
+    # hand-written forms with the outcome the statement prescribes (op index, source, 'pass' | 'ValueError'); the typed queries
+    # built first are a history: what an earlier query on a typed stream learnt about ITS parameter names must not leak into these
+    _typed_history()
+    fixed = [
+        (2, "lambda e: lambda j: j.pt > 30", "ValueError"), (2, "lambda e: (e.a, e.b)", "ValueError"), (2, "lambda e: {'a': e.x}", "ValueError"),
+        (2, "lambda e: 'txt'", "ValueError"), (2, "lambda e: [e.x]", "ValueError"),
+        (0, "lambda e: (lambda j: j.pt) if e.flag else 'none'", "ValueError"), (0, "lambda e: (lambda j: j.pt) if e.flag else (lambda k: k.eta)", "pass"),
+        (0, "lambda e: (e.a, e.b)['x']", "ValueError"), (0, "lambda e: (e.a, e.b)[1.5]", "ValueError"), (0, "lambda e: (e.a, e.b)[e.i]", "ValueError"),
+        (0, "lambda e: (e.a, e.b)[0:1]", "ValueError"), (0, "lambda e: (e.a, e.b)[2]", "ValueError"), (0, "lambda e: {'a': e.x}['b']", "ValueError"),
+        (0, "lambda e: e.m[1](2)", "pass"), (0, "lambda e: e.m['a', 2](e.x, k=e.y)", "pass"), (0, "lambda e: e.f(e.g[0])(1)", "pass"),
+        (0, "lambda e: lambda a, b: a", "pass"), (0, "lambda e: e.f(lambda a, b=(1, 2): a[0:1], 3)", "pass"), (1, "lambda e: e.jets.Select(lambda a, b: a)", "pass"),
+        (0, "lambda e: e.pt + ev.jets()", "pass"), (0, "lambda e: hit.weight + value.jets(1) + ctx", "pass"), (2, "lambda e: ev.met() > j.pt()", "pass"),
+        (1, "lambda e: ev.jets().Select(lambda q: hit.pt())", "pass"),
+    ]
+    nfixed = len(fixed)
+    expect = {len(cases) + i: f[2] for i, f in enumerate(fixed)}
+    cases += [(f[0], f[1]) for f in fixed]
     text = "def _ops():\n    return ['Select', 'SelectMany', 'Where']\n\n\n"
     for i, (op, src) in enumerate(cases):
         text += "def case_%d(ds):\n    return ds.%s(\n        %s\n    )\n\n\n" % (i, h.OPS[op], src)
@@ -82,6 +130,8 @@ def three_ways_side_check(r, tier):
             a = outcome(lambda: getattr(h.UDS(), h.OPS[op])(ast.parse(src).body[0].value))
             s = outcome(lambda: getattr(h.UDS(), h.OPS[op])(src))
             c = outcome(lambda: getattr(mod, "case_%d" % i)(h.UDS()))
+            if i in expect and (a[0] == "ok") != (expect[i] == "pass") and a[0] != "internal error":
+                r.violation("%s: outcome %s, the statement prescribes %s" % (src, a[0], expect[i]), {"engine": "concrete", "program": src, "outcome": str(a)[:300]})
             if a == s == c and a[0] != "internal error":
                 same += 1
                 if a[0] == "ok" and a[1] != ast.dump(ast.parse(src).body[0].value):
@@ -90,5 +140,6 @@ def three_ways_side_check(r, tier):
                 diff += 1
                 r.violation("the three ways of supplying a lambda disagree (ast / string / callable): %s" % src,
                             {"engine": "concrete", "program": src, "ast": str(a)[:300], "string": str(s)[:300], "callable": str(c)[:300]})
+    r.coverage["concrete_prescribed_outcome_forms"] = nfixed
     r.coverage["concrete_three_ways_cases"] = len(cases)
     r.coverage["concrete_three_ways_agree"] = same
